@@ -1,0 +1,38 @@
+//! Verification hooks, compiled only under `--cfg helgoboss_midi_verif`.
+//!
+//! Provides a drop-in replacement for the two `std::time::Instant` operations used by the polling
+//! (N)RPN scanner (`now` and `elapsed`), backed by a thread-local millisecond counter that a test
+//! harness drives explicitly. Without the cfg flag this module does not exist and the crate is
+//! built exactly as before.
+use core::time::Duration;
+use std::cell::Cell;
+
+thread_local! {
+    static NOW_MILLIS: Cell<u64> = const { Cell::new(0) };
+}
+
+/// Returns the current value of this thread's mock clock in milliseconds.
+pub fn now_millis() -> u64 {
+    NOW_MILLIS.with(|n| n.get())
+}
+
+/// Sets this thread's mock clock (milliseconds).
+pub fn set_now_millis(millis: u64) {
+    NOW_MILLIS.with(|n| n.set(millis));
+}
+
+/// Mock instant: a reading of the thread-local mock clock.
+#[derive(Copy, Clone, Eq, PartialEq, Debug)]
+pub struct Instant(u64);
+
+impl Instant {
+    /// Reads the mock clock.
+    pub fn now() -> Instant {
+        Instant(now_millis())
+    }
+
+    /// Time passed on the mock clock since this instant was taken.
+    pub fn elapsed(&self) -> Duration {
+        Duration::from_millis(now_millis().saturating_sub(self.0))
+    }
+}
